@@ -592,8 +592,11 @@ def call_symbolic_function(ip, f, args, kwargs):
 
 ProjSeq = z3.RecFunction("ProjSeq", V.VS, V.I, V.I, V.VS)     # [item[c] for item in xs[i:]]
 _ps, _pc, _pi = z3.Const("pj_s", V.VS), z3.Int("pj_c"), z3.Int("pj_i")
-z3.RecAddDefinition(ProjSeq, [_ps, _pc, _pi], z3.If(z3.Or(_pi < 0, _pi >= z3.Length(_ps)), z3.Empty(V.VS), z3.Concat(
-    z3.Unit(V.seq_items(_ps[_pi])[_pc]), ProjSeq(_ps, _pc, _pi + 1))))
+_pbody = z3.If(z3.Or(_pi < 0, _pi >= z3.Length(_ps)), z3.Empty(V.VS), z3.Concat(
+    z3.Unit(V.seq_items(_ps[_pi])[_pc]), ProjSeq(_ps, _pc, _pi + 1)))
+z3.RecAddDefinition(ProjSeq, [_ps, _pc, _pi], _pbody)
+from . import specfun as _specfun
+_specfun.register_feasibility_only(ProjSeq, [_ps, _pc, _pi], _pbody)
 
 
 def _zip_star(ip, v):
